@@ -334,7 +334,7 @@ pub fn worker(spec: &Spec, tier: Tier, seed: u64, shard: usize, nshards: usize, 
         let config = Config {
             cases: mine as u32,
             failure_persistence: None,
-            max_shrink_iters: 2000,
+            max_shrink_iters: 800,
             max_shrink_time: 0,
             ..Config::default()
         };
